@@ -322,6 +322,11 @@ class ExprMixin:
     def apply_specfunc(self, sf, vals, env):
         if len(vals) != len(sf.params):
             raise Unsupported('spec function %s: arity' % sf.name)
+        if not (sf.uf or sf.rec):
+            names = {pn: (v, tn) for (pn, _), (v, tn) in zip(sf.params, vals)}
+            e2 = Env(names, env.state, env.old, {}, env.pkg)
+            v, _ = self.eval(sf.parse(), e2)
+            return v
         targs = []
         for (v, _tn), (pn, ps) in zip(vals, sf.params):
             if isinstance(v, SeqV):
@@ -329,17 +334,12 @@ class ExprMixin:
             if not is_term(v):
                 raise Unsupported('spec function %s: composite argument' % sf.name)
             targs.append(v)
-        if sf.uf or sf.rec:
-            argsorts = [SORTS.get(ps, T.INT) for _, ps in sf.params]
-            f = T.UF('spec_' + sf.name, argsorts, SORTS.get(sf.sort, T.INT))
-            t = f(*targs)
-            if sf.rec:
-                self.note_rec_application(sf, tuple(targs), t)
-            return t
-        names = {pn: (v, None) for (pn, _), v in zip(sf.params, targs)}
-        e2 = Env(names, env.state, env.old, {}, env.pkg)
-        v, _ = self.eval(sf.parse(), e2)
-        return v
+        argsorts = [SORTS.get(ps, T.INT) for _, ps in sf.params]
+        f = T.UF('spec_' + sf.name, argsorts, SORTS.get(sf.sort, T.INT))
+        t = f(*targs)
+        if sf.rec:
+            self.note_rec_application(sf, tuple(targs), t)
+        return t
 
     # recursive spec functions: unfold definitions at occurring applications (depth-limited)
     def note_rec_application(self, sf, targs, t, depth=0):
